@@ -150,11 +150,13 @@ def run_scenario(scn):
                 else:
                     store = mem_store["obj"] or sr.fault_store("memory", None, yield_rnd=yr, log=[], latency=scn.get("store_latency"))
                     mem_store["obj"] = store
-                proc = sr.Proc(spec, store, idle_timeout=scn["idle_timeout"], stack=scn.get("stack", "inproc"), lifecycle_db=os.path.join(d, "lifecycle.db"))
+                proc = sr.Proc(spec, store, idle_timeout=scn["idle_timeout"], stack=scn.get("stack", "inproc"), lifecycle_db=os.path.join(d, "lifecycle.db"),
+                               engine_latency=scn.get("engine_latency"))
                 procs = [proc]
                 if scn.get("replicas", 1) > 1 and scn.get("stack") == "dbos_sub":
                     # second replica: its own decorator chain / server / workflow instance over the SAME store, lifecycle table and engine
-                    proc2 = sr.Proc(spec, store, idle_timeout=scn["idle_timeout"], stack="dbos_sub", lifecycle_db=os.path.join(d, "lifecycle.db"), engine=proc.engine)
+                    proc2 = sr.Proc(spec, store, idle_timeout=scn["idle_timeout"], stack="dbos_sub", lifecycle_db=os.path.join(d, "lifecycle.db"), engine=proc.engine,
+                                    engine_latency=scn.get("engine_latency"))
                     procs.append(proc2)
                 starter = asyncio.ensure_future(proc.start())
                 senders = []
@@ -203,7 +205,7 @@ def run_scenario(scn):
         shutil.rmtree(d, ignore_errors=True)
 
 
-def gen_program(rnd, *, n=None, waiter_timeout=None, retry_delay=None, chain=False):
+def gen_program(rnd, *, n=None, waiter_timeout=None, retry_delay=None, chain=False, post_wait_sleep=None):
     """wait-family program for the server: n items wait for Answer(key=v); optional waiter timeout; optional step that
     fails once and retries after `retry_delay`."""
     n = n or rnd.randint(1, 3)
@@ -215,6 +217,9 @@ def gen_program(rnd, *, n=None, waiter_timeout=None, retry_delay=None, chain=Fal
         {"name": "start", "in": ["Go"], "nw": 1, "acts": [{"k": "send", "type": "EvD", "items": items}, {"k": "ret", "type": None}], "declare": ["EvD"]},
         {"name": "ask", "in": ["EvD"], "nw": rnd.randint(1, 3), "acts": [{"k": "sleep", "d": {"from": "lat"}}, wait, {"k": "ret", "type": "EvC"}]},
     ]
+    if post_wait_sleep:
+        # the step goes on working for a while after its wait ended (answer or TimeoutError)
+        steps[1]["acts"].insert(2, {"k": "sleep", "d": post_wait_sleep})
     if chain:
         # two waits one after the other: the second idle period starts when the first wait ends (answer or timeout)
         steps[1]["acts"][-1] = {"k": "ret", "type": "EvE"}
